@@ -153,8 +153,12 @@ func cmdProp(args []string) int {
 		fmt.Println("ENGINE-ERROR:", err)
 		return 2
 	}
+	v.schedMode = prop == "C19"
 	if custom, ok := customChecks[prop]; ok {
 		return custom(v, prop, tier, seed, update)
+	}
+	if prop == "C16" {
+		return v.propCheck(prop, tier, seed, update, t0, globalWriteScan)
 	}
 	return v.propCheck(prop, tier, seed, update, t0, nil)
 }
@@ -274,6 +278,13 @@ func (v *Verifier) propCheck(prop, tier string, seed int, update bool, t0 time.T
 	if len(bl.Properties[prop]) == 0 && len(engineErrs) > 0 {
 		fmt.Println("ENGINE-ERROR:", strings.Join(engineErrs, "; "))
 		return 2
+	}
+	// a function of the cone that cannot be analysed and has no baseline entry yet: no verdict is possible
+	for _, n := range names {
+		if r := runs[n]; r.Err != nil && !erroredSeen[n] {
+			fmt.Println("ENGINE-ERROR:", r.Err)
+			return 2
+		}
 	}
 	// known findings
 	var kf struct {
